@@ -23,6 +23,18 @@ CLAIMS = {
          "Panic-freedom and progress of the decoders are decided on every path: each index, slice and fixed-width read on attacker-controlled bytes is shown in range (89 obligations), consumed-byte counters are shown to stay in lock-step with the cursor (so callers can slice by them), loops are shown to progress, the stream header parser is abstractly interpreted for every buffer length 0..16 with fully symbolic content (no wrap, no lossy cast, only documented outcomes), accepted tokens are at most 8 bytes, option numbers accumulate over dropped options, the pooled entry point copies its input, and the option registries equal the RFC tables. Agreement with a reference parser on every string and canonicalisation need execution and are not claimed.",
          TRUST + "bytes.Buffer.Len()==len(Bytes()) between two calls without intervening buffer mutation is assumed in the stream re-framing loop.",
          "DESIGN.md §4 C02"),
+ "C03": ("other", "CFG path queries with defer modelling (registered ⇒ checked ⇒ removed on all exits), structural key-agreement and hand-over rules, lockset rule for the registration primitive",
+         "Structural necessary conditions of token matching are decided on every path of every registration site: store-if-absent is one critical section, the duplicate edge returns an error without overwriting and without removing the owner's entry, the stored edge removes the same key on all exits (or hands a cleanup to callers that all run it), every table access is keyed by Token().Hash() which checksums the whole token, dispatch is one-shot and the hand-over is a non-blocking send of a hijacked message on the request's own buffered channel. Matching under adversarial response orders is not executed and not claimed.",
+         TRUST + "CRC-64 collisions between different tokens are outside the claim.",
+         "DESIGN.md §4 C03"),
+ "C07": ("other", "dominance/control-dependence rules on the re-framing loop + abstract interpretation of the header parser on every proper prefix of every header shape",
+         "The structural reasons framing depends only on the concatenated bytes are decided: size limit before waiting and before decoding, no consumption before the frame is complete, decoder gets exactly the announced frame and the buffer advances by the decoder's count, every proper header prefix yields ErrShortRead (abstractly interpreted with symbolic content, 8 header shapes × all prefix lengths) which the loop maps to 'wait', the announced length cannot wrap, reads append exactly what was read, hand-over is synchronous and in order. The quantification over all segmentations is argued from these, not executed.",
+         TRUST,
+         "DESIGN.md §4 C07"),
+ "C13": ("other", "registration-pairing path queries over an inventory of every storing call into Map/Cache-typed fields, deadline non-zero value-flow, error-cell cleanup discipline, acquire/release pairing",
+         "Leak-freedom is decided as a pairing discipline on every path: each of the 14 registration sites (all that exist – an unclassified new site fails) is removed on every exit, or its cleanup is handed to callers that all run it, or it is stored with a provably set deadline that the sweep (shown to reach every cache and the pending table) removes; deferred error-cell cleanups see the error actually returned; semaphores, endpoint slots and per-ID locks are released on every exit; the per-ID lock map and endpoint queue delete their entries at zero. Table sizes after histories are not measured.",
+         TRUST,
+         "DESIGN.md §4 C13"),
  "C19": ("proof", "abstract interpretation of the codec on go/ssa (intervals × per-bit provenance × linear forms) over symbolic inputs + constant-table evaluation",
          "The whole statement is decided for the whole domain without enumerating it: DecodeBlockOption/EncodeBlockOption are abstractly interpreted on symbolic 24-/32-bit inputs; acceptance/refusal is shown per input cell on every abstract path and the results' bits are shown to be exactly the RFC 7959 fields (so the two functions are mutual inverses), with no wrap or lossy conversion on the legal domain; the SZX size table is evaluated from the literal, shown single-writer, and BERT sizing is shown to be floor(max/1024)*1024.",
          TRUST + "The abstract transfer functions (sound for Go fixed-width integers) are trusted. BERT sizing for max < 1024 is outside the claim.",
